@@ -81,6 +81,7 @@ DEFAULT_OPTS = {
     "numh": None,               # "int" | "float": row heights produced by a NUMERIC column (narrow, wrapping digits) instead of a text cell
     "gby": 0,                   # > 0: the second data column is a group_by column whose label needs that many lines
     "repage": False,            # the document was constructed on ANOTHER page object (other table width); the scenario's page is assigned afterwards
+    "sibling": None,            # "nrow" | "paper" | "font" | "rows": a sibling document (same scenario, that one setting changed) was encoded just before
     "shadow": False,            # the same frame was encoded with the opposite text_convert setting just before
 }
 
@@ -536,6 +537,25 @@ def run_one(sc):
     except Exception as ex:  # constructor refused: not a pipeline scenario
         rec["outcome"] = "construct:" + type(ex).__name__ + ":" + str(ex)[:200]
         return rec
+    if o.get("sibling"):
+        # whatever the library remembered from the sibling (measurements, page-break blocks, layouts ...) must not show in
+        # the document under test
+        try:
+            c2, o2 = dict(c), dict(o)
+            kind = o["sibling"]
+            if kind == "nrow":
+                c2["nrow"] = c["nrow"] + 2
+            elif kind == "paper":
+                o2.update(PAPERS["custom" if c.get("paper", "letter") != "custom" else "landscape"])
+                if "orientation" not in PAPERS["custom" if c.get("paper", "letter") != "custom" else "landscape"]:
+                    o2["orientation"] = "portrait"
+            elif kind == "font":
+                o2["font"], o2["size"] = (4, 12) if (o["font"], o["size"]) != (4, 12) else (1, 9)
+            elif kind == "rows" and c["n"] >= 2:
+                pass
+            build(c2, o2, nrows=(c["n"] - 1 if kind == "rows" and c["n"] >= 2 else None))[0].rtf_encode()
+        except Exception:  # noqa - the sibling document is not under test
+            pass
     if o.get("shadow"):
         try:
             o2 = dict(o)
